@@ -9,6 +9,7 @@ import (
 	"sort"
 	"strconv"
 	"strings"
+	"sync"
 	"testing"
 	"time"
 
@@ -432,4 +433,104 @@ func TestLargeReplay(t *testing.T) {
 		sub.Close()
 	}
 	pub.Close()
+}
+
+// TestConcurrentPublishers: several clients publish stored messages at the same time, each on its own channel, while
+// further goroutines write to the same store directly (as last wills and cluster-side handlers do). Afterwards the
+// store holds every message exactly once, under its publisher's channel, with its payload and ttl.
+func TestConcurrentPublishers(t *testing.T) {
+	rounds := vkit.N(2)
+	for round := 0; round < rounds; round++ {
+		b := theBroker()
+		caseNo++
+		ns := fmt.Sprintf("cp%d", caseNo)
+		const G, N, D, DN = 6, 250, 6, 1500
+		var wg sync.WaitGroup
+		errs := make(chan string, G+D)
+		for g := 0; g < G; g++ {
+			wg.Add(1)
+			go func(g int) {
+				defer wg.Done()
+				cl := b.Attach(fmt.Sprintf("cp-%d", g))
+				if err := cl.Connect(fmt.Sprintf("cp-%d", g), "", nil); err != nil {
+					errs <- err.Error()
+					return
+				}
+				defer cl.Close()
+				for i := 0; i < N; i++ {
+					topic := fmt.Sprintf("%s/%s/c%d/?ttl=%d", keys["rws"], ns, g, 3600+g)
+					if _, err := cl.Publish(uint16(i+1), topic, []byte(fmt.Sprintf("c%d-%04d", g, i)), false); err != nil {
+						errs <- "publish: " + err.Error()
+						return
+					}
+				}
+			}(g)
+		}
+		st := b.S.VerifStorage()
+		for d := 0; d < D; d++ {
+			wg.Add(1)
+			go func(d int) {
+				defer wg.Done()
+				chName := fmt.Sprintf("%s/d%d/", ns, d)
+				ch := security.ParseChannel([]byte("k/" + chName))
+				for i := 0; i < DN; i++ {
+					m := message.New(message.NewSsid(b.Lic.Contract(), ch.Query), []byte(chName), []byte(fmt.Sprintf("d%d-%04d", d, i)))
+					m.TTL = uint32(5000 + d)
+					if err := st.Store(m); err != nil {
+						errs <- "store: " + err.Error()
+						return
+					}
+				}
+			}(d)
+		}
+		wg.Wait()
+		c := map[string]int{"round": round, "publishers": G, "direct-writers": D}
+		fail := func(msg string) {
+			shared = nil
+			vkit.ReportFailure(t.Name(), c, msg, "")
+			t.Fatal(msg)
+		}
+		select {
+		case m := <-errs:
+			fail(m)
+		default:
+		}
+		check := func(chName, prefix string, n int, ttl uint32) {
+			ch := security.ParseChannel([]byte("k/" + chName))
+			seen := map[string]int{}
+			var from message.ID
+			for page := 0; page < 100; page++ { // page through the whole channel (64 KiB reply cap per query)
+				msgs, err := st.Query(message.NewSsid(b.Lic.Contract(), ch.Query), time.Unix(0, 0), time.Unix(0, 0), from, 100000)
+				if err != nil {
+					fail("store query: " + err.Error())
+				}
+				if len(msgs) == 0 {
+					break
+				}
+				oldest := msgs[0].ID
+				for _, m := range msgs {
+					if string(m.Channel) != chName || m.TTL != ttl || !strings.HasPrefix(string(m.Payload), prefix) {
+						fail(fmt.Sprintf("with %d clients and %d writers storing at once, the history of %s holds a message with channel %q, payload %q, ttl %d (this publisher's messages: %sNNNN, ttl %d)", G, D, chName, m.Channel, m.Payload, m.TTL, prefix, ttl))
+					}
+					seen[string(m.Payload)]++
+					if bytes.Compare(m.ID, oldest) > 0 {
+						oldest = m.ID
+					}
+				}
+				from = oldest
+			}
+			for i := 0; i < n; i++ {
+				if k := seen[fmt.Sprintf("%s%04d", prefix, i)]; k != 1 {
+					fail(fmt.Sprintf("with %d clients and %d writers storing at once, message %s%04d is %d times in the history of %s (%d distinct messages there, %d were published)", G, D, prefix, i, k, chName, len(seen), n))
+				}
+			}
+		}
+		for g := 0; g < G; g++ {
+			check(fmt.Sprintf("%s/c%d/", ns, g), fmt.Sprintf("c%d-", g), N, uint32(3600+g))
+		}
+		for d := 0; d < D; d++ {
+			check(fmt.Sprintf("%s/d%d/", ns, d), fmt.Sprintf("d%d-", d), DN, uint32(5000+d))
+		}
+		vkit.Record(t.Name(), c, vkit.OK(true, "concurrent-publishers"))
+	}
 }
